@@ -11,7 +11,7 @@ from vlib.core import Violation
 
 ID = 'C03'
 LEVEL = 'exploration'
-RULE = ('Histories of 1..14 ops (register / update by mutation or by a fresh ServiceInfo / unregister / query) over a pool of <= 6 '
+RULE = ('Histories of 1..14 ops (register / update by mutation or by a fresh ServiceInfo, incl. re-advertising an instance under another subtype / unregister / query) over a pool of <= 6 '
         'service descriptions (3 types incl. a subtype and a mixed-case one, 3 host names in 2 spellings, v4/v6/dual/two-v4 address '
         'sets, custom TTLs incl. odd values) on one real instance in the simulator. Queries have 1..4 class-IN questions '
         '(PTR/A/AAAA/SRV/TXT/ANY/NSEC/unknown over registered names as spelled, re-cased, unregistered, and the enumeration name) '
@@ -30,7 +30,10 @@ BUDGET = {'quick': {'examples': 4000}, 'thorough': {'examples': 25000, 'shards':
 
 TYPES = ['_http._tcp.local.', '_Ipp._tcp.local.', '_printer._sub._http._tcp.local.']
 BASE_OF = {'_http._tcp.local.': '_http._tcp.local.', '_Ipp._tcp.local.': '_Ipp._tcp.local.',
-           '_printer._sub._http._tcp.local.': '_http._tcp.local.'}
+           '_printer._sub._http._tcp.local.': '_http._tcp.local.', '_scanner._sub._http._tcp.local.': '_http._tcp.local.',
+           '_color._sub._Ipp._tcp.local.': '_Ipp._tcp.local.'}
+SAME_BASE = {'_http._tcp.local.': ['_http._tcp.local.', '_printer._sub._http._tcp.local.', '_scanner._sub._http._tcp.local.'],
+             '_Ipp._tcp.local.': ['_Ipp._tcp.local.', '_color._sub._Ipp._tcp.local.']}
 HOSTS = [('host-a.local.', 120), ('Host-A.LOCAL.', 120), ('host-b.local.', 75), ('host-c.local.', 4500)]
 ADDRSETS = [['10.1.1.1'], ['fe80::1'], ['10.1.1.1', 'fe80::1'], ['10.1.1.1', '10.1.1.2'], ['10.1.1.3', 'fe80::2', 'fe80::3']]
 TEXTS = ['', '00', '0361623d', '05613d62633d03783d79']
@@ -63,7 +66,7 @@ op_st = st.one_of(
     st.integers(0, 5).map(lambda k: ['reg', k]),
     st.integers(0, 5).map(lambda k: ['reg', k]),
     st.integers(0, 5).map(lambda k: ['unreg', k]),
-    st.tuples(st.integers(0, 5), st.sampled_from(['port', 'text', 'addrs', 'host', 'weight']),
+    st.tuples(st.integers(0, 5), st.sampled_from(['port', 'text', 'addrs', 'host', 'weight', 'type', 'type']),
               st.sampled_from(['mutate', 'fresh']), st.integers(0, 9)).map(lambda t: ['upd', t[0], t[1], t[2], t[3]]),
     query_st.map(lambda q: ['query', q]),
     query_st.map(lambda q: ['query', q]),
@@ -115,6 +118,21 @@ class Exec:
         await host.zc.async_wait_for_start()
         pool = self.case['pool']
         for op in self.case['ops']:
+            try:
+                await self.step(w, host, pool, op)
+            except (Violation, sim.SimBudgetExceeded):
+                raise
+            except Exception as e:  # noqa - a registry operation on valid arguments must not raise
+                from vlib.core import HarnessError
+                if isinstance(e, HarnessError):
+                    raise
+                raise Violation(f'{op[0]} raised {type(e).__name__} on valid arguments', {'op': op[:3], 'exc': repr(e)[:200]},
+                                tag='api-raised:' + type(e).__name__)
+        if w.errors:
+            raise Violation('exception reached the event loop while answering', w.errors[:2], tag='loop-exception')
+
+    async def step(self, w: sim.World, host: sim.Host, pool: List[Dict[str, Any]], op: List[Any]) -> None:
+        if True:
             kind = op[0]
             k = op[1] % len(pool) if kind != 'query' else 0
             if kind != 'query' and self.stats['queries']:
@@ -123,11 +141,11 @@ class Exec:
                 await asyncio.sleep(1.25)
             if kind == 'reg':
                 if k in self.infos:
-                    continue
+                    return
                 d = dict(self.descs.get(k) or pool[k])
                 # names must be unique case-insensitively on one instance
                 if d['name'].lower() in self.model.services:
-                    continue
+                    return
                 info = sim.make_service_info(d)
                 task = await host.azc.async_register_service(info)
                 await task
@@ -136,14 +154,14 @@ class Exec:
                 self.model.register(d)
             elif kind == 'unreg':
                 if k not in self.infos:
-                    continue
+                    return
                 task = await host.azc.async_unregister_service(self.infos.pop(k))
                 await task
                 self.model.unregister(self.descs[k]['name'])
                 self.changed = True
             elif kind == 'upd':
                 if k not in self.infos:
-                    continue
+                    return
                 _, _, what, how, n = op
                 d = dict(self.descs[k])
                 if what == 'port':
@@ -156,6 +174,10 @@ class Exec:
                     d['addrs'] = ADDRSETS[n % len(ADDRSETS)]
                 elif what == 'host':
                     d['server'], d['host_ttl'] = HOSTS[n % len(HOSTS)]
+                elif what == 'type':
+                    # the instance keeps its name and is advertised under another (sub)type of the same base type
+                    alts = [t for t in SAME_BASE[BASE_OF[d['type']]] if t != d['type']]
+                    d['type'] = alts[n % len(alts)]
                 info = self.infos[k]
                 if how == 'mutate' and what in ('port', 'weight', 'addrs'):
                     if what == 'port':
@@ -175,8 +197,6 @@ class Exec:
             elif kind == 'query':
                 await self.query(w, op[1])
             await asyncio.sleep(0.05)
-        if w.errors:
-            raise Violation('exception reached the event loop while answering', w.errors[:2], tag='loop-exception')
 
     def _qname(self, q: List[Any]) -> Tuple[str, int]:
         tk, k, sp, qtype = q
@@ -279,7 +299,7 @@ class Exec:
                 ident = N(rp.ident_of_wire_rr(r))
                 if ident is None or ident not in allowed:
                     if ident in dont_care:
-                        continue
+                        return
                     raise Violation('additional record is not one of the answering services\' own SRV/TXT/address/NSEC records',
                                     dict(det, additional=ident, allowed=sorted(map(str, allowed))), tag='additional-foreign')
                 if allowed[ident] != r['ttl']:
